@@ -334,8 +334,10 @@ class CommandManager(object):
             if not self.pause:
                 self.paused = False
             self.plock.notify()
-            with self.qlock:
-                self.qlock.notify_all()
+        # take qlock only after releasing plock: the solver takes the two in
+        # the order qlock -> plock (wait_for_cmd)
+        with self.qlock:
+            self.qlock.notify_all()
 
     def get_result(self, lock_id):
         ''' get the result of a previously queued command '''
